@@ -20,7 +20,7 @@ RULE = ("(a) exhaustive family: every joint degree sequence with N<=4 (quick) / 
         "the custom generator, plus (fast generator) one-topology sequences whose stub count is not a multiple of the motif size; (b) Hypothesis-generated wider shapes (sizes 1..5, <= 4 motifs, multi-orbit custom "
         "motifs, network variant) under a leaf cap; (c) seeded chi-square tests of partner uniformity on 24..40 "
         "degree-1 vertices. For (a),(b) the full RNG decision tree is enumerated and every distinct ordered stub "
-        "sequence must have exactly equal probability and all must occur. Non-trivial = >= 2 distinct outcomes; "
+        "sequence must have exactly equal probability and all must occur. Plus an entropy bound on 16 degree-1 stubs and an order statistic on two million. Non-trivial = >= 2 distinct outcomes; "
         "distinct = distinct canonical JSON")
 ASSUMPTIONS = ["the generators draw randomness only through random.shuffle/choice/randrange of the stdlib module "
                "(otherwise the check falls back to a seeded chi-square test)",
@@ -87,6 +87,10 @@ def enumerated(tier, seed):
     # (c'') entropy bound: 16 degree-1 vertices need log2(16!) = 44.3 bits per generation
     for algo in ("fast", "motifs"):
         cases.append({"stat": True, "entropy": True, "algo": algo, "M": 16, "seed": seed * 1000 + 99})
+    # (c3) two million degree-1 vertices: within a motif the smaller name comes first exactly half of the time
+    # (anything that resolves ties between random keys by name shows only at this scale)
+    cases.append({"stat": True, "order": True, "algo": "fast", "M": 2000000, "samples": 1 if tier == "quick" else 3,
+                  "seed": seed * 1000 + 88})
     # (c) statistical: partner of vertex 0 among M degree-1 vertices
     for i, M in enumerate((24, 40) if tier == "quick" else (24, 30, 40, 60)):
         for algo in ("fast", "motifs"):
@@ -185,6 +189,20 @@ def stat_check(case):
                                        f"but making all {M}! stub arrangements equally likely needs {need:.1f} bits per run: "
                                        f"most placements are unreachable")
         return {"nontrivial": True, "classes": ["statistical", "entropy_bound"], "notes": {"bits_drawn": low, "bits_needed": need}}
+    if case.get("order"):
+        lt = tot = 0
+        with rng.seeded(case["seed"]):
+            for _ in range(case["samples"]):
+                del calls[:]
+                call("generate", g.random_clustered_graph, list(jds))
+                lt += sum(1 for a, b in calls if a < b)
+                tot += len(calls)
+        del calls[:]
+        z = (lt - tot / 2) / (tot / 4) ** 0.5
+        if abs(z) > 6.5:
+            raise Violation("stat-order", f"{M} degree-1 vertices: in {lt} of {tot} motifs the smaller name fills the first slot (z = {z:.1f}): "
+                                          f"the order of two stubs within a motif depends on their names")
+        return {"nontrivial": True, "classes": ["statistical", "two_million_stubs"], "notes": {"z_order": abs(z)}}
     if case.get("blocks"):
         nb = 8
         size = M // nb
